@@ -174,11 +174,26 @@ pub fn short_file(file: &str) -> String {
     }
 }
 
-/// Removes digits runs from a message so that e.g. indices and lengths do not split signatures.
+/// Removes digit runs and quoted text from a message so that indices, lengths and the
+/// offending input itself do not split signatures.
 pub fn strip_numbers(msg: &str) -> String {
     let mut out = String::new();
     let mut in_num = false;
+    let mut quote: Option<char> = None;
     for ch in msg.chars() {
+        if let Some(q) = quote {
+            if ch == q {
+                quote = None;
+                out.push(ch);
+            }
+            continue;
+        }
+        if ch == '`' || ch == '\'' {
+            quote = Some(ch);
+            out.push(ch);
+            in_num = false;
+            continue;
+        }
         if ch.is_ascii_digit() {
             if !in_num {
                 out.push('#');
